@@ -138,8 +138,20 @@ def _match_bound(p: ast.Call, n: ast.Call, sig, b, expanded, exp):
     return True
 
 
+ARRAY_NAMESPACES = {"np", "numpy", "da", "xp"}
+METHOD_FORMS = {"dot", "mean", "sum", "max", "min", "prod", "std", "var", "reshape", "transpose", "ravel", "astype", "clip", "round", "cumsum", "argmax", "argmin",
+                "any", "all", "conj", "squeeze", "swapaxes"}
+
+
 def _equiv_norm(e: ast.expr) -> ast.expr:
-    """Spellings of one value that Python treats alike: dict(k=v) == {"k": v};  (a,) + x == (a, *x);  x + (a,) == (*x, a)."""
+    """Spellings of one value that Python treats alike: dict(k=v) == {"k": v};  (a,) + x == (a, *x);  x + (a,) == (*x, a);
+    numpy's function and method forms  np.f(x, ...) == x.f(...)  for the array methods in METHOD_FORMS (also da. / xp.);  x.reshape((a, b)) == x.reshape(a, b)."""
+    if isinstance(e, ast.Call) and isinstance(e.func, ast.Attribute) and isinstance(e.func.value, ast.Name) and e.func.value.id in ARRAY_NAMESPACES and \
+            e.func.attr in METHOD_FORMS and e.args and not isinstance(e.args[0], ast.Starred):
+        e = ast.Call(func=ast.Attribute(value=e.args[0], attr=e.func.attr, ctx=ast.Load()), args=list(e.args[1:]), keywords=list(e.keywords))
+    if isinstance(e, ast.Call) and isinstance(e.func, ast.Attribute) and e.func.attr == "reshape" and len(e.args) == 1 and isinstance(e.args[0], ast.Tuple) and \
+            not any(isinstance(x, ast.Starred) for x in e.args[0].elts):
+        e = ast.Call(func=e.func, args=list(e.args[0].elts), keywords=list(e.keywords))
     if isinstance(e, ast.Call) and isinstance(e.func, ast.Name) and e.func.id == "dict" and not e.args and e.keywords and all(k.arg is not None for k in e.keywords):
         return ast.Dict(keys=[ast.Constant(value=k.arg) for k in e.keywords], values=[k.value for k in e.keywords])
     if isinstance(e, ast.BinOp) and isinstance(e.op, ast.Add):
